@@ -214,9 +214,11 @@ def exec_case(ctx, seq) -> None:
             mech = "content_altered"
         ctx.violation(mech, f"{len(lines)} lines written for {len(items)} serialisable messages: {why[:400]}", case,
                       [ln[:200].decode('utf-8', 'replace') for ln in lines])
-    closed = any(ev[0] == "stdin.aclose" for ev in out["proc_events"])
+    # judged while the client context is still open: leaving the context closes everything anyway
+    closed = any(ev[0] == "stdin.aclose" for ev in out.get("proc_events_before_exit", out["proc_events"]))
     if not closed:
-        ctx.violation("stdin_not_closed", "closing the write stream did not close the child's stdin", case)
+        ctx.violation("stdin_not_closed", "closing the write stream did not close the child's stdin (the child would "
+                      "not see EOF before the client context is left)", case)
     nontrivial = len(seq) >= 2 or any(s[0] in BAD_SHAPES for s in seq) or \
         any(isinstance(s[1], str) and any(ch in s[1] for ch in "\n\r \u0000") for s in seq)
     ctx.record(case, shape=len(lines), nontrivial=nontrivial,
